@@ -44,7 +44,7 @@ Proof.
     unfold k_bind_result_accepted. destruct (r =? c_ACCEPTANCE) eqn:Ea.
     + cbn. unfold test. cbn. rewrite Hg. cbn. rewrite Ea. cbn. rewrite Hreq. cbn.
       rewrite index_map. destruct (PySlice.index requested idx) as [c|e]; cbn; [|reflexivity].
-      rewrite Hacc. cbn.
+      rewrite Hacc. cbn. rewrite ?Hacc. cbn.
       specialize (IH (idx + 1) (acc ++ [c])
         (update "accepted_ids" (VL (map VI acc ++ [VI c])) (update "ctx" (ctxv c) (update "c" (resv r) (update "idx" (VI idx) env))))).
       cbn in IH. rewrite map_app in IH. specialize (IH eq_refl Hreq Hg).
@@ -135,7 +135,7 @@ Proof.
     destruct (PySlice.index rs idx) as [r|e]; cbn; [|reflexivity].
     unfold test. cbn. rewrite Hg. cbn. unfold k_ack_accepted.
     destruct (r =? c_ACCEPTANCE) eqn:Ea; cbn.
-    + rewrite Hacc. cbn.
+    + rewrite Hacc. cbn. rewrite ?Hacc. cbn.
       specialize (IH (idx + 1) (acc ++ [c])
         (update "alter_contexts" (VL (map ctxv acc ++ [ctxv c])) (update "context_res" (resv r) (update "c" (ctxv c) (update "idx" (VI idx) env))))).
       cbn in IH. rewrite map_app in IH. specialize (IH eq_refl Hack Hg).
@@ -247,7 +247,7 @@ Proof.
         = Ok (VB (or_empty in_token), envx)).
     { intro envx. destruct in_token as [[|x r]|]; cbn; rewrite ?len_cons_nz, ?len_nil_z; reflexivity. }
     repeat (rewrite Hself; cbn). rewrite Htok. cbn [bind]. rewrite Harg. cbn. unfold step_hs. cbn [cn_legs].
-    destruct ls as [|l ls']; [reflexivity|]. cbn.
+    destruct ls as [|l ls']; [reflexivity|]. cbn. repeat (rewrite Hself; cbn).
     rewrite break_eq. destruct (k_bind_break (leg_token l)) eqn:Eb; cbn.
     + eexists. eexists. split; [reflexivity|]. split; [cbn; reflexivity|]. split; [reflexivity|].
       intros x Hx. unfold ab_assigned in Hx. frame_tac Hx. reflexivity.
